@@ -627,7 +627,8 @@ class CliApplication:
     def diff_command(self) -> None:
         diff = Diff(
                    open(self.file_list[0]).read(),
-                   open(self.file_list[1]).read()
+                   open(self.file_list[1]).read(),
+                   syntax=self.syntax,
                )
 
         if self.diff_method == "diff":
